@@ -509,6 +509,13 @@ func (c *Ctx) assume(fr *Frame, cond *Term, why string) {
 		return
 	}
 	if r := c.checkSat(cond); r == "unsat" {
+		if strings.Contains(why, "engine bound") {
+			// every input on this path lies beyond the engine bound: the path is NOT followed
+			fn, site := c.site(fr)
+			c.w.mu.Lock()
+			c.w.cuts[why+" (whole path beyond the bound) @ "+fn+" : "+site]++
+			c.w.mu.Unlock()
+		}
 		panic(pathEnd{"assume infeasible: " + why})
 	}
 	if strings.Contains(why, "engine bound") {
